@@ -61,9 +61,11 @@ fn c04_cvec_iff_documented() {
     let p = mk(lo, hi, fmin, fmax, lower, norm, mf);
     let in_range = lo >= 1 && hi >= 1 && lo <= hi && fmin >= 0.0 && fmin <= 1.0 && fmax >= 0.0 && fmax <= 1.0 && fmin <= fmax;
     let r = p.check_ref();
-    let reached = unsafe { REGEX_REACHED } == 1;
-    assert!(reached == in_range);                                  // all range guards passed <=> documented range
-    assert!(r.is_err());                                           // (the ghost makes the success path return its error)
+    // "all range guards passed": the regex compilation was reached. Under Kani the ghost then returns Err, so
+    // r.is_ok() is always false there; in the *native* replay of a counterexample stubs are not applied and the
+    // real Regex::new runs, where passing the guards shows as Ok - the disjunction keeps both runs on one assertion.
+    let passed = unsafe { REGEX_REACHED } == 1 || r.is_ok();
+    assert!(passed == in_range);                                   // all range guards passed <=> documented range
     kani::cover!(in_range);
     kani::cover!(!in_range);
     kani::cover!(in_range && fmin == 0.0 && fmax == 1.0 && lo == 1 && hi == 1);
@@ -100,7 +102,9 @@ fn c04_cvec_same_verdict() {
             && p.0.normalize == norm && p.0.max_features == mf && p.0.stopwords.is_none() && p.0.tokenizer_function.is_none()
             && !p.0.tokenizer_deserialization_guard && p.0.split_regex.borrow().is_none());
     // by value: same verdict, same error kind, regex compilation reached in exactly the same cases
-    let k_val = match p.check() { Ok(_) => 9, Err(e) => range_err_kind(&e) };
+    // (the Ok payload - unreachable under the ghost - is forgotten instead of dropped: the drop glue of a compiled
+    //  `Regex` alone costs CBMC more than 10 min, and releasing memory is not part of the property)
+    let k_val = match p.check() { Ok(c) => { core::mem::forget(c); 9 } Err(e) => range_err_kind(&e) };
     let reached_val = unsafe { REGEX_REACHED } - reached_ref;
     assert!(k_val == k_ref && reached_val == reached_ref);
     kani::cover!(in_range);
